@@ -7,6 +7,7 @@ CONSTANT ReqSets <- RS2
 CONSTANT MaxWrites = 4
 CONSTANT PutSets <- PSAll
 CONSTANT ConfSets <- PSAll
+CONSTANT CoalSets <- PS2
 CONSTANT Lims = {0, 1, 2}
 SPECIFICATION Spec
 VIEW view
